@@ -32,13 +32,9 @@ tables once per parser object; only `Parser.line_position` / `index_position` re
 calls those (`Gen.Footprint.positionReaders = []`, pinned below) -/
 def logPaths : List String := ["_index_positions", "_line_positions"]
 
-/-- KF-C20-r5-1 (open, repair proposed as fixes/C20_r5_1.diff): `QueryPlanner.cte_results` is filled by `plan_cte`
-and never emptied, so a planner that is used for a second statement resolves a bare table name that equals a CTE
-name of an EARLIER statement to that statement's step.  The table below is therefore only ok with this path taken
-out; for `QueryPlanner` the theorem then speaks about histories in which no statement plans a CTE on its own.
-With the repair the attribute is rebound at the start of `from_query`, is no exposed read any more, and the entry
-is not needed. -/
-def knownPaths : List String := ["cte_results"]
+/-- (round 5 listed `cte_results` here for the then open finding KF-C20-r5-1; with the repair aa84a47 `from_query`
+rebinds the attribute before reading it, the path is no exposed read any more and nothing is exempt for the planner) -/
+def knownPaths : List String := []
 
 def exemptFor (cls : String) : List String :=
   if cls == "SqlalchemyRender" then memoPaths
@@ -83,7 +79,7 @@ example : conflicts (Footprint.MindsDBParser.map (strip logPaths)) = [] := by de
 example : conflicts Footprint.MindsDBLexer = [] := by decide
 
 /-- no exemption is a blanket one: only the listed paths are taken out, for the listed classes -/
-example : exemptFor "SQLLexer" = [] ∧ exemptFor "QueryPlanner" = ["cte_results"] := by decide
+example : exemptFor "SQLLexer" = [] ∧ exemptFor "QueryPlanner" = [] := by decide
 
 /-- **history independence of every probed class**: a call semantics over the rows of the class's table that
 respects the (stripped) footprints gives, after any history of calls on the same object, the result of the call
@@ -97,5 +93,33 @@ theorem C20B_history_independent {V R : Type} (cls : String) (rows : List Row)
   have hok := List.all_eq_true.mp C20B_frame_ok (cls, rows) hmem
   exact C20_reuse_table_history_independent (rows.map (strip (exemptFor cls))) hok run hr h c
     (by simpa using hc) (by simpa using hh) s
+
+/-! ## Round 6 — module / class level state during a call
+
+`Footprint.moduleWrites` lists every data attribute of a `mindsdb_sql` module or of a class defined there that, at some
+entry into a library function DURING a call of the probe (every public entry point; the fallback paths of all seven
+renderer dialect names), differs from its value at the start of that call.  Seed C20_12 (`IDENTIFIER_QUOTE` switched
+around `str(ast_query)` in the postgres fallback and restored) produces the row
+`("render_fallback", "mindsdb_sql.parser.ast.select.identifier", "IDENTIFIER_QUOTE", "transient")`.
+With the list decided empty (up to the lazily filled global, whose write is monotone and idempotent —
+`C20_review_noninterference_lazy_write`) every probed step is quiet, which is the hypothesis of
+`C20_quiet_steps_noninterference`. -/
+
+/-- globals that may be written for good by the first call that needs them (monotone idempotent fill) -/
+def lazyGlobals : List (String × String) :=
+  [("mindsdb_sql.parser.ast.select.identifier", "RESERVED_KEYWORDS")]
+
+/-- **the obligation**: no call of the probe changes module / class level state of the library for its duration; only
+the lazy global may be left changed -/
+theorem C20B_module_quiet :
+    Footprint.moduleWrites.all
+      (fun w => w.2.2.2 == "persistent" && lazyGlobals.contains (w.2.1, w.2.2.1)) = true := by decide
+
+/-- the probe is not blind: it covers these entry kinds, watched > 100 attributes at > 1000 boundaries, watches the
+lazy global, and reports a sentinel attribute that is switched around a nested library call and restored -/
+example : Footprint.moduleEntries = ["parse", "plan", "render", "render_exec", "render_fallback", "render_strict"] := by
+  decide
+example : (Footprint.moduleProbeWide && Footprint.moduleWatchesReserved && Footprint.moduleProbeSelfTest) = true := by
+  decide
 
 end MindsVerif.Props.C20B
